@@ -163,6 +163,10 @@ func c07One(ws *pipe.Workspace, fam string, idx int64, s *lexref.Spec, depth, L 
 	}
 	st.Evaluations++
 	st.Validated++
+	if b.ModeCountProblem != "" {
+		out = append(out, mc.Violation{Property: "C10", Check: "C07", Kind: "mode-tables-missing", Size: len(s.OneLine()),
+			Case: lexCaseJSON(fam, idx, s, nil, nil, L), Detail: "spec {" + s.OneLine() + "}: " + b.ModeCountProblem})
+	}
 	if prob := checkLexTables(b); prob != "" {
 		out = append(out, mc.Violation{Property: "C10", Check: "C07", Kind: "lexer-table", Size: len(s.OneLine()),
 			Case: lexCaseJSON(fam, idx, s, nil, nil, L), Detail: "spec {" + s.OneLine() + "}: " + prob})
